@@ -409,8 +409,14 @@ func (g *Gen) GenFunc(fn *ssa.Function, spec *FuncSpec) (vc *FnVC, err error) {
 		if s == "STRUCT" || s == "TUPLE" {
 			unsupported("parameter %s of type %s", p.Name(), p.Type())
 		}
-		t := v.declare("p_"+sanitize(p.Name()), s)
-		v.paramConsts[t.Name] = true
+		var t *Term
+		if s == SSlice {
+			pn := "p_" + sanitize(p.Name())
+			t = MkSlice(v.declare(pn+".ref", SInt), v.declare(pn+".off", SInt), v.declare(pn+".len", SInt), v.declare(pn+".cap", SInt))
+			v.paramConsts[pn+".ref"] = true
+		} else {
+			t = v.declare("p_"+sanitize(p.Name()), s)
+		}
 		v.assume(True, v.typeInv(t, p.Type(), v.entry), "type")
 		val := Val{T: t, Typ: p.Type()}
 		v.regs[p] = val
